@@ -1,6 +1,7 @@
 import RtenVerif.Lemmas.SymRange
 
 /-! Relations between the ideal, overflow-checked and wrapping evaluators (C11). -/
+set_option linter.unusedSimpArgs false
 namespace RtenVerif.Sym
 
 theorem wrap32_id {x : Int} (h1 : I32MIN ≤ x) (h2 : x ≤ I32MAX) : wrap32 x = x := by
